@@ -56,6 +56,12 @@ func init() {
 			c16ExecutorCopies(r, 26000000+i)
 			c16AsyncCancelConsistency(r, 27000000+i)
 		})
+		vk.Parallel(scale(r, 1500, 60000), 4, func(i int) {
+			if r.Skip(28000000 + i) {
+				return
+			}
+			c16ConcurrentBreakerEvents(r, 28000000+i)
+		})
 		// concurrent executions sharing listeners: exactly one OnDone and one of OnSuccess/OnFailure per execution
 		rr := vk.Rng(r.Seed, "C16c", 0)
 		comps := c14Compositions(rr, true)
@@ -65,7 +71,7 @@ func init() {
 			}
 			c14Round(r, "C16", 30000000+ci, comps[ci], ci)
 		}
-		r.Rule += " Plus executor copies (WithContext with nil/background/value contexts: listeners of the copy and the original stay separate) and async executions cancelled while a cancellation-ignoring function runs or from the OnDone listener (events must match what Get returns). Plus rejection-event scenarios (bulkhead/limiter refused, or cancelled by context, deadline or outer Timeout while queueing: OnFull/OnRateLimitExceeded fire exactly for refusals), 3 000 breaker histories with manual Open/HalfOpen/Close and listener subsets (events only), and concurrent rounds over shared executors where each execution must see exactly one OnDone and one of OnSuccess/OnFailure (attribution by a per-execution counter carried in the context)."
+		r.Rule += " Plus executor copies (WithContext with nil/background/value contexts: listeners of the copy and the original stay separate) and async executions cancelled while a cancellation-ignoring function runs or from the OnDone listener (events must match what Get returns). Plus rejection-event scenarios (bulkhead/limiter refused, or cancelled by context, deadline or outer Timeout while queueing: OnFull/OnRateLimitExceeded fire exactly for refusals), 3 000 breaker histories with manual Open/HalfOpen/Close and listener subsets (events only), 1 500 rounds of 2-8 goroutines driving one zero-delay breaker through executions, records and manual transitions with slow listeners (the event log must be a connected path ending in the breaker's final state, specific and generic listeners in step), and concurrent rounds over shared executors where each execution must see exactly one OnDone and one of OnSuccess/OnFailure (attribution by a per-execution counter carried in the context)."
 	})
 	register("C17", func(r *vk.Report) {
 		eseqCheck(r, "C17", "stats", []string{"stats"})
